@@ -48,6 +48,11 @@ def replay(ck, binary, sc, origin):
                          "driver process) in scenario %s (%s) after step %s %s %s" % (sc["name"], origin, last.get("i"), last.get("do"), last.get("op")), sc)
             return False
         raise vf.Infra("driver died: " + err[:1500])
+    hung = [e for e in ev if e.get("t") == "step" and e.get("to") == "hung"]
+    if hung:       # fixFinger is a sequence of lookups issued to the node itself
+        ck.violation("C09:no-return:maintenance", "a maintenance call (%s at node rank %s) did not return within 8 s in scenario %s: it looks up identifiers at the node itself"
+                     % (hung[0].get("do"), hung[0].get("n"), sc["name"]), sc)
+        return False
     bad = [e for e in ev if e.get("t") == "step" and e.get("kind") == "lookup" and e.get("to") != "done"]
     if bad:
         ck.violation("C09:no-return", "lookup did not return within the deadline in scenario %s: %s" % (sc["name"], bad[0]), sc)
